@@ -10,7 +10,8 @@ Reading that is formalised:
                   ∧ on a request: every required header key has one of the values listed for that key
                     (key looked up lower-cased, value compared case-insensitively) and every required query
                     parameter is present (and equal when a value is given)
-                  ∧ on a response: status ∈ f.statuses (empty = any).
+                  ∧ on a response: status ∈ f.statuses (empty = any); the response walk of an EARLY response (a
+                    processor answered the request) has no status code: a status constraint is not met.
                   Header/query constraints are vacuous on the response event (the SPOE response message
                   carries neither) — a recorded formalisation choice.
   `shadowed`      the statement's caveat: another loaded pattern has the same labels as f.url on the first i
@@ -65,7 +66,9 @@ def queryOk (f : Flow) (t : Txn) : Bool :=
     | some x => (match kv.2 with | some v => x == v | none => true)
     | none => false
 
-def statusOk (f : Flow) (t : Txn) : Bool := f.statuses.isEmpty || f.statuses.contains t.status
+/-- on a response: status ∈ f.statuses (empty = any); an EARLY response carries no status code, so it satisfies
+    no status constraint -/
+def statusOk (f : Flow) (t : Txn) : Bool := f.statuses.isEmpty || (t.hasResp && f.statuses.contains t.status)
 
 def applies (f : Flow) (t : Txn) : Bool :=
   «matches» f.parts t.parts && methodOk f t &&
